@@ -1,6 +1,6 @@
 //! C18 — reports stay well-formed whatever the names and source text contain.
 //!
-//! Three streams, all from one `Rng::new(seed ^ TAG)`:
+//! Four streams, all from one `Rng::new(seed ^ TAG)`:
 //!  * `esc`    the real escape routines (quick-xml `escape` / `push_attribute` / `BytesText::new` /
 //!             `partial_escape`, serde_json's string writer, Tera's auto-escape reached through
 //!             `grcov::html::gen_dir_index`) on generated strings, byte for byte against the Lean
@@ -10,7 +10,9 @@
 //!  * `report` whole reports: hostile paths / function names / source lines through the real
 //!             `output_cobertura`, `output_coveralls`, `output_covdir`, `output_activedata_etl`,
 //!             `output_html`, read back by tools/c18_decode.py (expat, json, html.parser) and
-//!             compared with (a) the original names and (b) the shape of a benign twin report.
+//!             compared with (a) the original names and (b) the shape of a benign twin report;
+//!             every sink of every html page against the model's fragment (sinks.rs);
+//!  * `xmlread` the strict XML readers of the model against expat (sinks.rs).
 use corrlib::*;
 use grcov::html::HtmlResources;
 use grcov::{CovResult, Function, HtmlDirStats, HtmlFileStats, HtmlStats, ResultTuple};
@@ -19,6 +21,8 @@ use serde_json::{json, Value};
 use std::collections::{BTreeMap, BTreeSet};
 use std::panic::AssertUnwindSafe;
 use std::path::{Path, PathBuf};
+
+mod sinks;
 
 const TAG: u64 = 0xC18;
 
@@ -1581,6 +1585,16 @@ fn evaluate_cases(rep: &mut Report, cases: &[RepCase], tag: &str) -> Vec<Verdict
         let (hid, bid, wh, wb) = &written[i];
         let v = judge_case(c, hid, bid, wh, wb, &dec);
         if v.failures.is_empty() {
+            // the sinks of the templates against Escape.titleFrag / currentItem / rowLink / preLine
+            if let Some(d) = sinks::sink_tie(rep, c, wh, tag) {
+                rep.disagreements_checked += 1;
+                rep.fail(
+                    "disagreement",
+                    None,
+                    format!("a sink of an html page differs from the Escape model (the C18_sink_* theorems no longer transfer): {}", d),
+                    case_json(c),
+                );
+            }
             if let Some(d) = bc_diff.get(&i) {
                 rep.disagreements_checked += 1;
                 rep.fail(
@@ -1787,13 +1801,20 @@ pub fn run(rep: &mut Report) {
                 broken by inserted entity / escape fragments (non-trivial = broken); report: 1-4 files in 1-3 \
                 hostile directories with hostile function names and source lines through the five real writers, \
                 read back by expat / json / html.parser and compared with the names and with a benign twin \
-                (non-trivial = some name contains a metacharacter)".into();
+                (non-trivial = some name contains a metacharacter); every sink of every page (title, active \
+                breadcrumb, row links, source lines) byte for byte against the Escape model; xmlread: one name as \
+                the only attribute value / character data of a document written by the real quick-xml writer, or \
+                a broken escape put between the delimiters by hand, read by expat and by Escape.scanAttr / \
+                scanXmlText (non-trivial = control character, non-character or metacharacter)".into();
     let mut r1 = rng.fork();
     let mut r2 = rng.fork();
     let mut r3 = rng.fork();
+    let mut r4 = rng.fork();
     esc_stream(rep, &mut r1);
     dec_stream(rep, &mut r2);
     report_stream(rep, &mut r3);
+    sinks::xmlread_stream(rep, &mut r4);
+    sinks::observe_prefix_separator(rep);
     rep.notes.push("the quantifier excludes control characters: the esc/dec streams include them (the routines are total), the report stream does not".into());
 }
 
@@ -1850,6 +1871,7 @@ pub fn replay(rep: &mut Report, case: &Value) {
                 rep.notes.push("malformed report case".into());
             }
         }
+        "xmlread" => sinks::replay_xmlread(rep, case),
         _ => rep.notes.push("unknown op in replay case".into()),
     }
 }
